@@ -71,6 +71,10 @@ def plan(tier, seed):
     for a, b in E.chunks(E.n_sequences(4, 4), 64):
         shards.append(("feat", "1dpos", 4, "pearson", a, b))
         shards.append(("feat", "1dpos", 4, "kullback_leibler", a, b))
+    # five training samples + one query over two weight levels, one sample in the minority class
+    # (samples that wait in the queue with equal tentative costs, one of them improved later)
+    for a, b in E.chunks(E.n_graphs(6, 2), 1024):
+        shards.append(("g6", a, b))
     # ordinary lattice data at a tiny scale (every distance far below 1e-8)
     for mt in ("squared_euclidean", "log_squared_euclidean"):
         for a, b in E.chunks(E.n_sequences(4, 4), 64):
@@ -116,6 +120,19 @@ TABLES = {"near": [1.0, 1.0 + 3e-6, 1.0 + 6e-6], "tiny": [1e-9, 2e-9, 3.5e-9], "
 
 def programs(shard, seed):
     kind = shard[0]
+    if kind == "g6":
+        _, a, b = shard
+        table = E.value_table(seed, 2)
+        for gi in range(a, b):
+            Wl = E.matrix_from_ranks(6, E.graph_ranks(6, 2, gi), table).tolist()
+            for q in range(6):
+                train = order([i for i in range(6) if i != q], seed)
+                for j in range(5):
+                    lab = [0] * 5
+                    lab[j] = 1
+                    yield {"model": "SupervisedOPF", "mode": "pre", "W": Wl, "I_train": train,
+                           "labels": list(E.rename_classes(tuple(lab), seed)), "batches": [[q]]}
+        return
     if kind in ("wo", "g", "semi", "gt"):
         if kind == "gt":
             _, n1, m, tab, a, b = shard
@@ -166,6 +183,9 @@ def programs(shard, seed):
         if lk == "1dpos":
             qs = [q for q in qs if all(v > 0 for v in q)]
         labs = E.labelings(n)
+        if n >= 6:
+            labs = [tuple(i % 2 for i in range(n)), tuple(0 if i < n // 2 else 1 for i in range(n)),
+                    tuple((i * i) % 3 for i in range(n))]
         for si in range(a, b):
             seq = E.sequence_at(len(pts), n, si)
             X = [list(pts[i]) for i in seq]
